@@ -14,10 +14,12 @@ Full statement wanted by the property (kept visible):
 
     ∀ A B p, (A.op B).mem p = op.sem (A.mem p) (B.mem p)        for op ∈ {intersect, union, difference}
 
-It is **false** of the code at the pinned commit for a few families of pairs (witness theorems
-below: a polygon at height ≠ 0 against a polyline, unions with a polyline or a footprint, the
-lazy-union recursion), so what is proved is the statement under `routeOK`, and `Props/C16.lean`
-shows `routeOK` for every control state outside those families.
+`Props/C16.lean` shows `routeOK` for every control state of the regenerated table, with one stated
+exception (`curveCut`): a polygon minus a polyline is returned unchanged, because a curve has no interior —
+every point of it is a boundary point, which the property excludes; there the statement is proved for the
+points off the curve (`exec_sound_c`).  The witness theorems at the end record what goes wrong when a handler
+is reached without the guards added by the repairs b481834b (polygon at height ≠ 0 against a polyline) and
+7945c47f (unions with a polyline).
 -/
 namespace Scenic.Region
 
@@ -73,6 +75,14 @@ def routeOK (F : Flags) (op : Op) : Ctl → Route → Bool
   | c, .lift z r => op == .intersect && c.ka == .foot && planarK c.kb && z == .otherZ && routeOK F op c.lift r
   | _, .compose => op != .intersects
   | _, _ => false
+
+/-- a polygon at height 0 minus a polyline (operands that look like `c`): Shapely returns the polygon, since
+    removing a curve from an area leaves the same closed area -/
+def curveCut (c : Ctl) : Bool := planarK c.ka && c.kb == .line && !c.ea
+
+/-- `routeOK`, or the one route that implements `difference` only off the subtrahend (`curveCut`) -/
+def routeOKc (F : Flags) (op : Op) (c : Ctl) (r : Route) : Bool :=
+  routeOK F op c r || (op == .difference && curveCut c && r == .run (.polySub true) && F.fromShapelyPassesZ)
 
 /-- contracts of the geometric libraries used as oracles (Shapely `contains` / `intersects`, FCL) -/
 def OracleOK (O : Oracle) : Prop :=
@@ -191,6 +201,16 @@ theorem polySub_sound (passZ : Bool) (hok : handlerOK F .difference (ctlOf A B) 
     refine ⟨_, by simp only [runH, hbk, hp, hf]; rfl, fun p => ?_⟩
     simp only [Res.mem, hA.2.2 p, hB.2 p]
     grind
+
+/-- a flat polygon minus a polyline is the polygon, at the polygon's height -/
+theorem polySub_curve_sound (hc : curveCut (ctlOf A B) = true) (hF : F.fromShapelyPassesZ = true) :
+    ∃ r, runH O F (.polySub true) A B = .res r ∧ ∀ p, r.mem p = A.mem p := by
+  simp only [curveCut, ctl_ka, ctl_kb, Bool.and_eq_true, beq_iff_eq] at hc
+  obtain ⟨⟨ha, hb⟩, _⟩ := hc
+  have hA := kind_planar_cases A ha
+  refine ⟨_, by simp only [runH, hb, hF]; rfl, fun p => ?_⟩
+  simp only [Res.mem, hA.2.2 p]
+  simp
 
 theorem lineAnd_sound (hok : handlerOK F .intersect (ctlOf A B) .lineAnd = true) :
     ∃ r, runH O F .lineAnd A B = .res r ∧ ∀ p, r.mem p = (A.mem p && B.mem p) := by
@@ -457,6 +477,24 @@ theorem exec_sound (O : Oracle) (F : Flags) (op : Op) (r : Route) :
   | crash => intro A B _ _ hok; simp [routeOK] at hok
   | fuel => intro A B _ _ hok; simp [routeOK] at hok
 
+/-- the same with the `curveCut` route: a polygon minus a polyline obeys set semantics at every point **off the
+    polyline** (all of whose points are boundary points) -/
+theorem exec_sound_c (O : Oracle) (F : Flags) (op : Op) (r : Route) (A B : Reg)
+    (hfa : A.kind = .foot → bareFoot A) (hfb : B.kind = .foot → bareFoot B)
+    (hok : routeOKc F op (ctlOf A B) r = true) :
+    ∃ res, exec O F op r A B = .res res ∧
+      ∀ p, ((op = .difference ∧ curveCut (ctlOf A B) = true) → B.mem p = false) →
+        res.mem p = op.sem (A.mem p) (B.mem p) := by
+  simp only [routeOKc, Bool.or_eq_true, Bool.and_eq_true, beq_iff_eq] at hok
+  rcases hok with hok | ⟨⟨⟨hop, hc⟩, hr⟩, hF⟩
+  · obtain ⟨res, h1, h2⟩ := exec_sound O F op r A B hfa hfb hok
+    exact ⟨res, h1, fun p _ => h2 p⟩
+  · subst hop hr
+    obtain ⟨res, h1, h2⟩ := polySub_curve_sound O F A B hc hF
+    refine ⟨res, h1, fun p hp => ?_⟩
+    rw [h2 p, Op.sem, hp ⟨rfl, hc⟩]
+    simp
+
 /-- planar results keep the height of their operands: a route accepted by `routeOK` that ends in one of
     the polygon handlers yields a `PolygonalRegion` at the operands' common height -/
 theorem exec_keeps_height (O : Oracle) (F : Flags) (A B : Reg) (ha : planarK A.kind = true)
@@ -482,9 +520,10 @@ theorem polyAnd_drops_height_witness (O : Oracle) (F : Flags) :
   · simp [Res.mem, Reg.kind]
   · simp [Reg.mem, unitDisc, Shape2.mem, V2.dsq, sq, Pt.xy]
 
-/-- **defect of the pinned code** (finding `setsem:intersect:poly-line:elevated`): the polygon handler run
-    on a polygon at height 5 and a polyline returns the planar intersection as a curve at height 0: the
-    point (0,0,0) is in the result but not in the polygon -/
+/-- why the guard `isinstance(other, PolylineRegion) and self.z != 0` added by b481834b is needed: the polygon
+    handler run on a polygon at height 5 and a polyline returns the planar intersection as a curve at height 0:
+    the point (0,0,0) is in the result but not in the polygon (`handlerOK` rejects this, so a table without the
+    guard fails `gen_routes_sound`) -/
 theorem elevated_polygon_polyline_witness (O : Oracle) (F : Flags) :
     ∃ r, runH O F (.polyAnd true) (.planar 5 unitDisc) (.line [⟨-1, 0⟩, ⟨1, 0⟩]) = .res r ∧
       r.mem ⟨0, 0, 0⟩ = true ∧ (Reg.planar 5 unitDisc).mem ⟨0, 0, 0⟩ = false := by
@@ -493,8 +532,8 @@ theorem elevated_polygon_polyline_witness (O : Oracle) (F : Flags) :
     norm_num
   · simp [Reg.mem]
 
-/-- **defect of the pinned code** (finding `setsem:union:poly-line:*`): the union of a polygon with a polyline
-    is the polygon: the point (2,0,0) of the polyline is lost -/
+/-- why the guard `not isinstance(other, PolygonalRegion)` added by 7945c47f is needed: the polygon-union handler
+    run on a polygon and a polyline returns the polygon: the point (2,0,0) of the polyline is lost -/
 theorem union_polyline_dropped_witness (O : Oracle) (F : Flags) :
     ∃ r, runH O F (.polyOr true) (.planar 0 unitDisc) (.line [⟨-3, 0⟩, ⟨3, 0⟩]) = .res r ∧
       r.mem ⟨2, 0, 0⟩ = false ∧ (Reg.line [⟨-3, 0⟩, ⟨3, 0⟩]).mem ⟨2, 0, 0⟩ = true := by
